@@ -59,3 +59,69 @@ void go(Rng& rng, bool exhaustive)
             }
         }
 }
+
+// a rounding_integer combined with a built-in integer (either side) and comparisons: same lines as go<>
+// (the built-in operand is lifted by from_value to rounding_integer<R, Tag>, so the result must be the same)
+template<class Tag, class L, class R>
+void gom(Rng& rng)
+{
+    using A = rounding_integer<L, Tag>;
+    using B = rounding_integer<R, Tag>;
+    auto lv = vals<L>(rng, 4 * scale_from_env(), sizeof(L) > 4 ? 13 : 6);
+    auto rv = vals<R>(rng, 4 * scale_from_env(), sizeof(R) > 4 ? 13 : 6);
+    std::string mode = TagN<Tag>::name();
+    for (L l : lv)
+        for (R r : rv) {
+            A a{l};
+            B b{r};
+            RB("div", a / r)
+            RB("div", l / b)
+            RB("add", a + r)
+            RB("sub", l - b)
+            RB("mul", a * r)
+            RB("mod", l % b)
+#define RC(NAME, EXPR) \
+    { \
+        printf("C08 cmp " NAME " %s %s %s ", mode.c_str(), tn<L>().c_str(), tn<R>().c_str()); \
+        prv(l); \
+        putchar(' '); \
+        prv(r); \
+        fputs(" => ", stdout); \
+        VH_RUN(EXPR, print_tv) \
+    }
+            RC("lt", a < b) RC("lt", a < r) RC("lt", l < b)
+            RC("le", a <= r) RC("gt", l > b) RC("ge", a >= r)
+            RC("eq", a == b) RC("eq", a == r) RC("eq", l == b)
+            RC("ne", a != r) RC("ne", l != b)
+        }
+}
+
+// division by a cnl::constant<N>: the constant is lifted to rounding_integer<TC, Tag> (TC = int when N fits, else int64)
+template<class Tag, class L, long long N, class TC>
+void divc(Rng& rng)
+{
+    using A = rounding_integer<L, Tag>;
+    using R = TC;
+    std::vector<L> lv;
+    if constexpr (sizeof(L) == 1)
+        lv = all_vals<L>();
+    else {
+        lv = vals<L>(rng, 30 * scale_from_env(), sizeof(L) > 4 ? 7 : 3);
+        for (int i = 0; i < 40; ++i) {
+            I q = I(rng.next() % 41) - 20;
+            if (i % 5 == 0) q = I(std::numeric_limits<L>::max()) / I(N) - (i % 3);
+            if (i % 5 == 1) q = I(std::numeric_limits<L>::lowest()) / I(N) + (i % 3);
+            for (int s = -1; s <= 1; s += 2)
+                for (int d = -1; d <= 1; ++d) {
+                    I v = q * I(N) + s * (I(N) / 2) + d;
+                    if (v >= I(std::numeric_limits<L>::lowest()) && v <= I(std::numeric_limits<L>::max())) push_unique(lv, L(v));
+                }
+        }
+    }
+    std::string mode = TagN<Tag>::name();
+    for (L l : lv) {
+        A a{l};
+        R r = R(N);
+        RB("div", a / constant<N>{})
+    }
+}
